@@ -74,10 +74,14 @@ def run(ctx):
                 s = for_suspicious(l)
                 if s:
                     ctx.fail("R1", m, l, q, l.iter, f"`for ... in {short(l.iter, 40)}` {s}: may not terminate")
+                else:
+                    ctx.ok("R1", f"{m.rel}:{l.lineno} {q}", f"`for ... in {short(l.iter, 40)}` iterates a finite sequence that its body does not extend", nontrivial=False)
         # module-level loops
         for w in [x for x in m.tree.body if isinstance(x, ast.While)]:
             ctx.fail("R1", m, w, "<module>", w.test, "module-level while loop")
-    ctx.floor("R1", 35)
+    ctx.floor("R1", 35)      # all loops (a `while` rewritten as a bounded `for` stays counted)
+    if n_while < 15:
+        raise AnalysisError(f"C03-R1: only {n_while} `while` loops found (the SCF drivers, the purification and the Davidson drivers alone have more): anchor drift")
 
     # ------------------------------------------------------------------ R2
     get_error = scf.func("get_error")
